@@ -224,3 +224,34 @@ def trajectory_type_rule(repo, res):
     except Undecided as x:
         raise AnalysisError("PlanningProblemSolution.trajectory setter: %s" % x)
     res.check("TAB-ALIGN", "assigning a trajectory updates the trajectory type the solution is written under", not bad, pps.mod, st, "PlanningProblemSolution.trajectory setter: %s" % "; ".join(bad), "the solution is written under the element name and state fields of the previous trajectory's type: the file is invalid, cannot be written, or reads back as another trajectory type", qualname="PlanningProblemSolution.trajectory")
+
+
+def optional_metadata_rule(repo, res, RULE="TAB-XSD"):
+    """Solution(..) keeps the optional meta data it is given: a date / computation time / processor name that is None
+    (what the reader passes for a file without that attribute) stays None, a given value stays that value — so a
+    solution without a date reads back without one."""
+    from ..strdom import ClassRef, Ev, Obj, Undecided, _Raise, show
+
+    SO = "commonroad/common/solution.py"
+    sol = repo.cls(SO, "Solution")
+    init = sol.methods.get("__init__")
+    if init is None:
+        raise AnalysisError("Solution.__init__ missing")
+    for label, given in (("nothing optional given", {"date": NONE, "computation_time": NONE, "processor_name": NONE}), ("all given", {"date": Sym("date", "num"), "computation_time": Sym("computation_time", "num"), "processor_name": Str.lit("cpu")})):
+        ev = Ev(repo)
+        ev.pure_modules = {"np", "numpy", "math", "datetime", "platform", "warnings"}
+        ev.instantiate = {"Solution"}
+        ev.assume_valid = True
+        bad = []
+        try:
+            o = ev.apply(ClassRef(sol), [Obj(None, {}, closed=True, label="scenario id"), ListV([])], dict(given), sol.node, sol.mod)
+            for k, v in given.items():
+                got = ev.getattr(o, k, sol.node, sol.mod)
+                same_ = (got is v) or (isinstance(v, Str) and isinstance(got, Str) and got.is_lit() and got.text() == v.text())
+                if not same_:
+                    bad.append("%s=%s is held as %s" % (k, show(v), show(got)))
+        except _Raise as x:
+            bad.append("raises %s" % x.what)
+        except Undecided as x:
+            raise AnalysisError("Solution.__init__ [%s]: %s" % (label, x))
+        res.check(RULE, "Solution(..) [%s]: optional meta data is kept as given (None stays None)" % label, not bad, sol.mod, init, "Solution.__init__ [%s]: %s" % (label, "; ".join(bad)), "a solution read from a file without this attribute carries a value that was never in the file", qualname="Solution.__init__")
